@@ -21,6 +21,7 @@
 """SSH connection handlers"""
 
 import asyncio
+from copy import copy
 import functools
 import getpass
 import inspect
@@ -5984,8 +5985,12 @@ class SSHServerConnection(SSHConnection):
         for alg in peer_host_key_algs:
             keypair = self._server_host_keys.get(alg)
             if keypair:
-                if alg != keypair.algorithm:
-                    keypair.set_sig_algorithm(alg)
+                # The key pair objects are shared by all the connections
+                # of a listener. Set the signature algorithm negotiated
+                # here on a copy, so another connection negotiating in
+                # the meantime can't change what this one signs with
+                keypair = copy(keypair)
+                keypair.set_sig_algorithm(alg)
 
                 self._server_host_key = keypair
                 return True
